@@ -264,3 +264,36 @@ def lexCS2 (a b : Rec) : Bool := decide (a.1 < b.1) || (a.1 == b.1 && decide (a.
 def geoSort (xs : List Rec) : List Rec := isort lexCS2 xs
 
 end C08
+
+namespace C08
+
+/-! ### Jaccard / Forbes over several contigs (`similarity_measures.jaccard` / `forbes`, `Geometry.jaccard`) -/
+
+/-- one contig: (size, intervals a, intervals b) -/
+abbrev Contig2 := Nat × List Iv × List Iv
+
+def add4 (x y : Nat × Nat × Nat × Nat) : Nat × Nat × Nat × Nat :=
+  (x.1 + y.1, x.2.1 + y.2.1, x.2.2.1 + y.2.2.1, x.2.2.2 + y.2.2.2)
+
+/-- `get_contingency_table` summed over the contigs (`streamable(sum)`) -/
+def contingencyGenome (cs : List Contig2) : Nat × Nat × Nat × Nat :=
+  (cs.map (fun c => contingency c.2.1 c.2.2 c.1)).foldl add4 (0, 0, 0, 0)
+
+def specContingencyGenome (cs : List Contig2) : Nat × Nat × Nat × Nat :=
+  (cs.map (fun c => specContingency c.2.1 c.2.2 c.1)).foldl add4 (0, 0, 0, 0)
+
+/-- `float(a/(N-d))`: the IEEE quotient of the two counts -/
+def jaccardF (t : Nat × Nat × Nat × Nat) : Float := Float.ofNat t.1 / Float.ofNat (t.1 + t.2.1 + t.2.2.1)
+
+/-- `float(a*N/((a+b)*(a+c)))` -/
+def forbesF (t : Nat × Nat × Nat × Nat) : Float :=
+  Float.ofNat (t.1 * (t.1 + t.2.1 + t.2.2.1 + t.2.2.2)) / Float.ofNat ((t.1 + t.2.1) * (t.1 + t.2.2.1))
+
+def jaccard (cs : List Contig2) : Float := jaccardF (contingencyGenome cs)
+def forbes (cs : List Contig2) : Float := forbesF (contingencyGenome cs)
+
+/-- the per-base definition: the same quotients of the per-base counts -/
+def specJaccard (cs : List Contig2) : Float := jaccardF (specContingencyGenome cs)
+def specForbes (cs : List Contig2) : Float := forbesF (specContingencyGenome cs)
+
+end C08
